@@ -6,6 +6,8 @@ import FlVerif.Op.FunctionTerm
 import FlVerif.Lemmas.CodeFunction
 import FlVerif.Lemmas.CodeFunctionParse
 import FlVerif.Lemmas.FormatInfix
+import FlVerif.Lemmas.CodeFunEval
+import FlVerif.Lemmas.CodeFunEvalParse
 
 /-! # C17 — Function formulas follow the documented precedence and associativity
 
@@ -122,6 +124,80 @@ theorem code_parsePostfix (tbl : Table) (formula : String) :
     | .error e => Gen.Code.Function_parse.run tbl formula {} = .error e.toPy
     | .ok r => ∃ σ, Gen.Code.Function_parse.run tbl formula {} = .ok σ ∧ σ.ret = some r.toNode :=
   CodeFn.code_parsePostfix tbl formula
+
+/-- **Tie A (code → model).**  `Gen.Code.Node_evaluate` is regenerated from the source of `Function.Node.evaluate`
+    on every run (the recursion over the tree with a bound on its depth, which is never exhausted; values are any
+    type `V`; `sem.ap0/ap1/ap2` are the meanings of `element.method(*args)`, `const` the scalar of a float, `lv` the
+    map of variables or `None`).  For every tree `e` that `Function.parse` can build – the arity of every element is
+    the number of its operands (`Op.Arities`; the table has no element of arity 3 or more, `table_wellFormed`) and a
+    leaf is a token, not the empty string – the function called on the node tree `e.toNode` raises `ValueError`
+    where `Op.evalTree` has no value (a variable without substitution) and otherwise returns the model's value. -/
+theorem code_nodeEvaluate {V : Type} [Inhabited V] (sem : Sem V) (const : X Rat → V) (lv : Option (List (String × V)))
+    (e : Expr) (ha : Arities e) (hl : e.LeavesNonempty) :
+    match evalTree (nodeSem sem const lv) e with
+    | none => Gen.Code.Node_evaluate.run sem const e.toNode lv {} = .error .value
+    | some v => ∃ σ, Gen.Code.Node_evaluate.run sem const e.toNode lv {} = .ok σ ∧ σ.ret = some v :=
+  CodeFunEval.code_nodeEvaluate sem const lv e ha hl
+
+/-- **Tie A (code → model).**  `Gen.Code.Function_evaluate` (regenerated from `Function.evaluate`): `RuntimeError` when
+    no tree is loaded, else `Node.evaluate` of the root (`Op.evaluateOf`). -/
+theorem code_functionEvaluate {V : Type} [Inhabited V] (sem : Sem V) (const : X Rat → V) (lv : Option (List (String × V)))
+    (root : Option Expr) (hr : ∀ e, root = some e → Arities e ∧ e.LeavesNonempty) :
+    match evaluateOf (nodeSem sem const lv) root with
+    | .error k => Gen.Code.Function_evaluate.run sem const (root.map Expr.toNode) lv {} = .error k.toPy
+    | .ok v => ∃ σ, Gen.Code.Function_evaluate.run sem const (root.map Expr.toNode) lv {} = .ok σ ∧ σ.ret = some v :=
+  CodeFunEval.code_functionEvaluate sem const lv root hr
+
+/-- **Tie A (code → model).**  `Gen.Code.Function_membership` is regenerated from the source of `Function.membership`
+    (`fvars` = the term's own variables, `engine` = the name / value pairs of the engine's variables or `None`; a
+    dictionary is the list of its assignments, a look-up takes the last one).  It raises the exception class the model
+    `Op.membershipOf` predicts – `ValueError` for a term variable `x`, an engine variable `x`, a term variable with the
+    name of an engine variable (`Op.membershipEnv`), `RuntimeError` for a term that is not loaded, `ValueError` for a
+    variable without substitution – and otherwise returns the model's value: the tree evaluated with the engine's
+    variables in order, then `x`, then the term's variables. -/
+theorem code_functionMembership {V : Type} [Inhabited V] (sem : Sem V) (const : X Rat → V) (root : Option Expr)
+    (hr : ∀ e, root = some e → Arities e ∧ e.LeavesNonempty) (fvars : List (String × V))
+    (engine : Option (List (String × V))) (x : V) :
+    match membershipOf sem const root fvars (engine.getD []) x with
+    | .error k => Gen.Code.Function_membership.run sem const (root.map Expr.toNode) fvars engine x {} = .error k.toPy
+    | .ok v => ∃ σ, Gen.Code.Function_membership.run sem const (root.map Expr.toNode) fvars engine x {} = .ok σ ∧
+        σ.ret = some v :=
+  CodeFunEval.code_functionMembership sem const root hr fvars engine x
+
+/-- every tree `Function.parse` builds (over a well-formed table: no element of arity 3 or more) satisfies the two
+    side conditions of `code_nodeEvaluate` / `code_functionMembership`: arities agree with the node kinds, and the
+    leaves are tokens of `format_infix(formula).split()`, hence not empty -/
+theorem parse_built (tbl : Table) (hT : tbl.WellFormed) (formula : String) (e : Expr)
+    (h : parseFormula tbl (formatInfix tbl formula) = .ok e) : Arities e ∧ e.LeavesNonempty :=
+  parseFormula_built tbl hT formula e h
+
+/-- the model of the property theorems (`Op.functionMembership`, values `Val α`, the documented meaning of the
+    elements) is `Op.parseFormula` followed by `Op.membershipOf` -/
+theorem functionMembership_as_membershipOf {α : Type} [Field α] [LinearOrder α] [IsStrictOrderedRing α] [FloorRing α]
+    (F : Fn α) (tbl : Table) (formula : String) (fvars evars : List (String × X α)) (x : X α) :
+    functionMembership F tbl formula fvars evars x =
+      match parseFormula tbl (formatInfix tbl formula) with
+      | .error k => .error k
+      | .ok e => (membershipOf (valSem F (fun _ => none)) numConst (some e) (liftEnv fvars) (liftEnv evars) (Val.num x)).map
+          (fun v => (e, v)) :=
+  functionMembership_eq F tbl formula fvars evars x
+
+/-- **Tie A, end to end.**  `Function.create(name, formula, engine)` followed by `.membership(x)`: the translated
+    `Function.parse` and then the translated `Function.membership` on the node it returns raise the exception class
+    `Op.functionMembership` predicts and otherwise return its tree (as a `Function.Node`) and its value – for every
+    well-formed table (`table_wellFormed` for the regenerated one), formula, map of term variables, engine variables
+    (`none`: no engine) and `x`; the elements mean what `Lang.sem0/1/2` document. -/
+theorem code_createMembership {α : Type} [Field α] [LinearOrder α] [IsStrictOrderedRing α] [FloorRing α]
+    (F : Fn α) (tbl : Table) (hT : tbl.WellFormed) (formula : String)
+    (fvars : List (String × X α)) (engine : Option (List (String × X α))) (x : X α) :
+    match functionMembership F tbl formula fvars (engine.getD []) x with
+    | .error k => (Gen.Code.Function_parse.run tbl formula {} >>= fun p =>
+        Gen.Code.Function_membership.run (valSem F (fun _ => none)) numConst p.ret (liftEnv fvars) (engine.map liftEnv)
+          (Val.num x) {}) = .error k.toPy
+    | .ok r => ∃ p σ, Gen.Code.Function_parse.run tbl formula {} = .ok p ∧ p.ret = some r.1.toNode ∧
+        Gen.Code.Function_membership.run (valSem F (fun _ => none)) numConst p.ret (liftEnv fvars) (engine.map liftEnv)
+          (Val.num x) {} = .ok σ ∧ σ.ret = some r.2 :=
+  CodeFunEval.code_createMembership F tbl hT formula fvars engine x
 
 /-! ## infix → postfix: the shunting-yard loop is correct for every writing of every tree -/
 
